@@ -143,6 +143,31 @@ Theorem C10_exec : forall sz fl clk root pre c b ce cs ti,
 Proof. exact exec_spec. Qed.
 Print Assumptions C10_exec.
 
+(* Overlapping executions on one Call.  OBegin c: calls[c].Exec(f) has started
+   and is inside f; OEnd x b: f of execution x returns (an error iff b) and
+   Exec finishes.  For ANY history in between - further executions of the same
+   Call included, begun and ended in any order (f calling Exec itself, other
+   goroutines) - the end of an execution records, on the Call's latency timer,
+   the time since that execution's OWN beginning, the function's outcome is
+   returned unchanged, it is on record as having run once, the clock is read
+   once, and exactly one of the two counters grows by one. *)
+Theorem C10_exec_overlap : forall sz fl clk root pre c h mid b cc,
+  let s0 := run sz fl clk root pre in
+  nth_error (calls s0) c = Some h ->
+  nth_error (e_calls (senv_of sz fl clk root pre)) c = Some cc ->
+  let s1 := run sz fl clk root (pre ++ OBegin c :: mid) in
+  let s' := step sz fl clk s1 (OEnd (length (execs s0)) b) in
+  fruns s' = fruns s1 ++ [(c, b)] /\
+  rets s' = rets s1 ++ [b] /\
+  nclk s' = S (nclk s1) /\
+  delivered fl s' (records sz fl clk root (pre ++ OBegin c :: mid) ++
+                   [(call_lat_key sz cc, sat64 (clk (nclk s1) - clk (nclk s0)))]) /\
+  let kx := if b then call_err_key sz cc else call_ok_key sz cc in
+  pend_of s' kx = wrap64 (pend_of s1 kx + 1) /\
+  (forall k, k <> kx -> pend_of s' k = pend_of s1 k).
+Proof. exact exec_overlap. Qed.
+Print Assumptions C10_exec_overlap.
+
 (* the next report pass hands each non-zero counter to the reporter, once, and resets it *)
 Theorem C10_pass_counters : forall s,
   (forall c, In c (counters s) -> cpend c <> 0 ->
@@ -219,4 +244,14 @@ Example C10_example_closed_scope :
   let s := run san_id FCached ex_clk ([], []) ops in
   tlog_cached (log s) = [([[115;46;116]], [5]); ([[115;46;116]], [6]); ([[115;46;116]], [7])] /\
   map fst (allocs (log s)) = [0; 1] /\ thand s = [0%nat; 1%nat; 1%nat].
+Proof. vm_compute. repeat split; reflexivity. Qed.
+
+(* two executions of one Call overlap (begun at 100 and 350, ended at 1000 and
+   1007, first begun first ended): each records the time since its own start *)
+Example C10_example_overlap :
+  let ops := [OCall 0 [114;112;99]; OBegin 0; OBegin 0; OEnd 0 true; OEnd 1 false] in
+  let s := run san_id FPlain ex_clk ex_root ops in
+  map ei (filter (fun e => ek e =? 3) (log s)) = [[900]; [657]] /\
+  fruns s = [(0%nat, true); (0%nat, false)] /\ rets s = [true; false] /\
+  map cpend (counters s) = [1; 1].
 Proof. vm_compute. repeat split; reflexivity. Qed.
